@@ -328,6 +328,10 @@ func runSchedule(raw []byte, w *bufio.Writer) {
 	cond := sync.NewCond(&mu)
 	turn := 0
 	clientOf := map[int]int{} // goroutine id -> client
+	done := map[int]bool{}    // clients that have made all their calls
+	// The imposed order is a sequence of client ids, one per lock acquisition of the behaviour. An implementation need not take the lock for
+	// every call (e.g. a lock-free fast path for cached degrees): turns of clients that have finished are skipped, so the replay never waits
+	// for an acquisition that will not come; whether the order could be imposed is reported by the "order" event.
 	gate = func(ev string, g int) {
 		mu.Lock()
 		defer mu.Unlock()
@@ -337,6 +341,11 @@ func runSchedule(raw []byte, w *bufio.Writer) {
 		}
 		if ev == "rs.wait" {
 			for turn < len(s.Order) && s.Order[turn] != c {
+				if done[s.Order[turn]] {
+					turn++
+					cond.Broadcast()
+					continue
+				}
 				cond.Wait()
 			}
 		} else { // rs.unlock: this acquisition is over, next in the order may go
@@ -344,6 +353,12 @@ func runSchedule(raw []byte, w *bufio.Writer) {
 			cond.Broadcast()
 		}
 	}
+	go func() { // watchdog: a replay that makes no progress is a deadlock of the code under test (or of the imposed order), reported as such
+		time.Sleep(60 * time.Second)
+		emit(w, map[string]interface{}{"op": "deadlock", "hist": 0})
+		w.Flush()
+		os.Exit(3)
+	}()
 	type rsres struct {
 		C, N int
 		Out  []int
@@ -353,11 +368,18 @@ func runSchedule(raw []byte, w *bufio.Writer) {
 	var wg sync.WaitGroup
 	for c := range s.Clients {
 		wg.Add(1)
-		go client(c, s.Clients[c], s.Data, enc, &mu, clientOf, &wg, func(n int, out []int) {
-			rmu.Lock()
-			results = append(results, rsres{c, n, out})
-			rmu.Unlock()
-		})
+		go func(c int) {
+			client(c, s.Clients[c], s.Data, enc, &mu, clientOf, &wg, func(n int, out []int) {
+				rmu.Lock()
+				results = append(results, rsres{c, n, out})
+				rmu.Unlock()
+			})
+			mu.Lock()
+			done[c] = true
+			cond.Broadcast()
+			mu.Unlock()
+			wg.Done()
+		}(c)
 	}
 	wg.Wait()
 	for _, e := range hevents {
@@ -371,7 +393,6 @@ func runSchedule(raw []byte, w *bufio.Writer) {
 }
 
 func client(c int, ns []int, data []int, enc *utils.ReedSolomonEncoder, mu *sync.Mutex, clientOf map[int]int, wg *sync.WaitGroup, rec func(n int, out []int)) {
-	defer wg.Done()
 	mu.Lock()
 	clientOf[gid()] = c
 	mu.Unlock()
